@@ -137,3 +137,35 @@ package lease_set
 //@     assert(keys_and_cert.KacAccepts(data) && suffix(rem, data, keys_and_cert.KacExtent(data)))
 //@   }
 //@ }
+
+// C14 (count out of range): the parser, the validator and the constructor's
+// input check apply the same lease-count rule, the specification's 0..16.
+// The parser accepts a count byte c exactly when c <= 16 and c*44 bytes
+// follow; Validate() accepts exactly leaseCount <= 16 with as many leases;
+// the constructor rejects more than 16 leases.  (Bodies executed.)
+//@ option C14_LeaseSetCountRule nocontract *
+//@ lemma C14_LeaseSetCountRule(data []byte, ls *LeaseSet) {
+//@   n, leases, _, err := parseLeases(data)
+//@   if len(data) >= 1 {
+//@     c := int(data[0])
+//@     assert((err == nil) == (c <= 16 && len(data)-1 >= c*44))
+//@     if err == nil {
+//@       assert(n == c && len(leases) == c)
+//@     }
+//@   } else {
+//@     assert(err != nil)
+//@   }
+//@   assume(ls != nil)
+//@   assert((validateLeaseSetCounts(ls) == nil) == (ls.leaseCount <= 16 && len(ls.leases) == ls.leaseCount))
+//@ }
+
+//@ option C14_LeaseSetCtorCountRule nocontract *
+//@ lemma C14_LeaseSetCtorCountRule(data []byte, leases []lease.Lease) {
+//@   d, _, err := destination.ReadDestination(data)
+//@   assume(err == nil)
+//@   e := validateLeaseSetInputs(d, d.KeysAndCert.ReceivingPublic, d.KeysAndCert.SigningPublic, leases)
+//@   assert(len(leases) > 16 ==> e != nil)
+//@   if key_certificate.CryptoType(d.KeysAndCert.KeyCertificate) == 0 {
+//@     assert(len(leases) <= 16 ==> e == nil)
+//@   }
+//@ }
